@@ -350,3 +350,89 @@ HARNESSES = [
     assumptions=_ASSUME + ['C pickle codec: loads(dumps(x)) == x for plain data (stub returns the entry list; the replay goes through the real codec in protocols 0, 2, 5)',
                            'entries: <= 2 (quick) / 3 (thorough); names from a table; the first entry has symbolic table indices for both numbers, the others come from small tables (symbolic name: C01_pickle_name)']),
 ]
+
+
+# ---- frames as a python2 sender writes them, and the frame length limit, on the REAL C unpickler ------------------------------
+def _py2_frame(entries):
+  """Protocol-2 pickle of [(name, (ts, value))...] the way cPickle on python2 writes str names: raw
+  UTF-8 bytes in SHORT_BINSTRING ('U'), ints as BININT/BININT1, floats as BINFLOAT."""
+  out = b'\x80\x02]q\x00('
+  for name, (ts, value) in entries:
+    raw = name.encode('utf-8')
+    out += b'U' + bytes([len(raw)]) + raw
+    out += b'J' + struct.pack('<i', ts) + b'G' + struct.pack('>d', value) + b'\x86\x86'
+  return out + b'e.'
+
+
+def _py2_frames(ni, nj, cut):
+  names = [pick(NAMES, ni), pick(NAMES, nj)]
+  entries = [(names[0], (1700000060, 1.5)), (names[1], (1700000061, -2.25))]
+  payload = _py2_frame(entries)
+  stream = struct.pack('!I', len(payload)) + payload
+  p = make_receiver(real_protocols.MetricPickleReceiver)
+  try:
+    with Recorder() as rec:
+      c = cut % (len(stream) + 1)
+      p.dataReceived(stream[:c])
+      p.dataReceived(stream[c:])
+  finally:
+    drop_receiver(p)
+  cover('decoded')
+  return rec.items == [(n, (float(ts), float(v))) for (n, (ts, v)) in entries]
+
+
+def C01_py2_frames(ni: int, nj: int, cut: int) -> bool:
+  """
+  pre: 0 <= ni < len(NAMES) and 0 <= nj < len(NAMES)
+  pre: 0 <= cut <= 12
+  post: __return__
+  """
+  return _py2_frames(ni, nj, cut)
+
+
+def _frame_limit(limit, n, extra_frames):
+  """A frame is legal up to PICKLE_RECEIVER_MAX_LENGTH payload bytes (inclusive): it is delivered, and so
+  are the frames after it; only a longer one may close the connection."""
+  from vp_lib.cachelab import sset
+  old = real_protocols.settings['PICKLE_RECEIVER_MAX_LENGTH']
+  sset('PICKLE_RECEIVER_MAX_LENGTH', limit)
+  try:
+    p = make_receiver(real_protocols.MetricPickleReceiver)
+  finally:
+    sset('PICKLE_RECEIVER_MAX_LENGTH', old)
+  got = []
+  p.stringReceived = got.append
+  payload = bytes(TAGS[i % len(TAGS)] for i in range(n))
+  small = b'ok'
+  stream = struct.pack('!I', n) + payload + (struct.pack('!I', 2) + small) * extra_frames
+  try:
+    p.dataReceived(stream)
+  finally:
+    drop_receiver(p)
+  if n <= limit:
+    cover('within')
+    return got == [payload] + [small] * extra_frames and not p.transport.disconnecting
+  cover('too_long')
+  return got == [] and p.transport.disconnecting
+
+
+def C01_frame_limit(limit: int, n: int, extra_frames: int) -> bool:
+  """
+  pre: 4 <= limit <= 9
+  pre: 0 <= n <= 11
+  pre: 0 <= extra_frames <= 1
+  post: __return__
+  """
+  return _frame_limit(limit, n, extra_frames)
+
+
+HARNESSES += [
+  H('C01_py2_frames', quick=dict(timeout=280, shards=[('n%d' % k, 'ni == %d' % k) for k in range(len(NAMES))], extra_pre=['cut in (0, 2, 7, 12)']),
+    thorough=dict(timeout=600, shards=[('n%d' % k, 'ni == %d' % k) for k in range(len(NAMES))]), covers=['decoded'],
+    encodes=['carbon.util:SafeUnpickler.loads (real C engine, encoding of python2 str)', 'carbon.protocols:MetricPickleReceiver.dataReceived / stringReceived'],
+    assumptions=['hand-built protocol-2 frames as a python2 cPickle sender writes them (metric names as raw UTF-8 bytes in SHORT_BINSTRING), names from the table incl. non-ASCII and astral '
+                 'characters (symbolic indices), one symbolic cut position in the first 12 bytes']),
+  H('C01_frame_limit', quick=dict(timeout=200), covers=['within', 'too_long'],
+    encodes=['carbon.protocols:MetricPickleReceiver.__init__ (MAX_LENGTH from PICKLE_RECEIVER_MAX_LENGTH)', 'twisted Int32StringReceiver length check'],
+    assumptions=['PICKLE_RECEIVER_MAX_LENGTH symbolic in 4..9, payload length symbolic 0..11: the boundary is the same arithmetic at the production value (1 MiB)']),
+]
